@@ -161,7 +161,20 @@ pub fn parse_dynamic_string(input: &str) -> Result<DynamicString, CompilerError>
             }
 
             let inner = &input[index + 1..end];
-            if let Some(sequence) = parse_inline_sequence(inner)? {
+            if let Some((condition, branch_text)) = parse_inline_conditional(&input[index..=end])? {
+                let branches: Vec<&str> = split_top_level_pipe(branch_text);
+                let when_true = tokenize_inline_content(branches[0])?;
+                let when_false = if branches.len() > 1 {
+                    Some(tokenize_inline_content(branches[1])?)
+                } else {
+                    None
+                };
+                parts.push(DynamicStringPart::Conditional {
+                    condition,
+                    when_true,
+                    when_false,
+                });
+            } else if let Some(sequence) = parse_inline_sequence(inner)? {
                 parts.push(DynamicStringPart::Sequence(sequence));
             } else {
                 parts.push(DynamicStringPart::Expression(parse_expression(inner)?));
